@@ -314,7 +314,6 @@ class ExprMixin:
                 m = st2
                 for f in extra:
                     m.assume(z3.Implies(go, f))
-                m.heap = rst.heap if _same_heap(rst, st2) else m.heap
                 if not _same_heap(rst, st2):
                     raise Unsupported('boolean operand with heap effect')
                 yield m, V(a.ty, z3.If(go, rv.t, a.t))
@@ -525,12 +524,21 @@ class ExprMixin:
         n = z3.Length(base.t)
 
         def norm(v):
+            v = z3.simplify(v)
+            if z3.is_int_value(v) and v.as_long() >= 0 or self.spec_mode and not z3.is_int_value(v):
+                # specification expressions use non-negative bounds only (rule of the contract language)
+                return z3.If(v > n, n, v)
+            if not z3.is_int_value(v) and self.entails_lia(st, v >= 0):
+                if self.entails_lia(st, v <= n):
+                    return v
+                return z3.If(v > n, n, v)
             return z3.If(v < 0, z3.If(v + n < 0, 0, v + n), z3.If(v > n, n, v))
 
         def bounds(st0, lo_v, hi_v):
             lo = z3.IntVal(0) if lo_v is None else norm(lo_v.t)
             hi = n if hi_v is None else norm(hi_v.t)
-            hi = z3.If(hi < lo, lo, hi)
+            if not (hi_v is not None and lo_v is not None and not self.spec_mode and self.entails_lia(st, lo <= hi)):
+                hi = z3.If(hi < lo, lo, hi)
             return st0, (z3.simplify(lo), z3.simplify(hi))
         if sl.lower is None and sl.upper is None:
             yield bounds(st, None, None)
@@ -569,6 +577,8 @@ class ExprMixin:
                 pos = n + i
             elif z3.is_int_value(i) or self.spec_mode:
                 # specification expressions index with non-negative positions only (rule of the contract language)
+                pos = idx.t
+            elif self.entails_lia(st, idx.t >= 0):
                 pos = idx.t
             else:
                 pos = z3.If(i < 0, n + i, i)
@@ -745,6 +755,15 @@ class ExprMixin:
                 return V(STR, self.UF('enum_name_' + ty.name, ty.sort(), z3.StringSort())(r.t))
             if attr == 'value':
                 return V(INT, self.UF('enum_value_' + ty.name, ty.sort(), z3.IntSort())(r.t))
+        if isinstance(ty, TPy) and ty.kind == 'super':
+            inst, cls = r.t
+            c, m = self.src.lookup_method(self.src.find_class(inst.ty.cls) or cls, attr, after=cls)
+            if m is None:
+                raise Unsupported(f'super().{attr} not found')
+            fr = FuncRef(c.module.relpath, f'{c.qualname}.{attr}', m, cls=c)
+            if attr in c.props:
+                return self.call_property(inst, fr, st, exits, e)
+            return V(BOUND, Bound(inst, attr, fr, c))
         if isinstance(ty, TPy) and ty.kind == 'enumcls':
             return V(r.t, r.t.member(attr))
         if ty is CLS:
@@ -775,9 +794,14 @@ PY_BUILTINS = {'len', 'int', 'str', 'any', 'all', 'isinstance', 'range', 'enumer
 
 
 def _same_heap(a, b):
-    if a.heap.keys() != b.heap.keys():
-        return False
+    """no heap/ghost effect between b (before) and a (after); arrays first touched in between (lazily
+    created initial arrays) are adopted by b"""
     for k in a.heap:
+        if k not in b.heap:
+            if str(a.heap[k]) != 'H_' + k:
+                return False
+            b.heap[k] = a.heap[k]
+            continue
         if a.heap[k] is not b.heap[k] and not z3.eq(a.heap[k], b.heap[k]):
             return False
     for k in a.ghost:
